@@ -12,4 +12,7 @@ CASES = [
          old="        with self._lock:\n            self._is_enabled = False\n\n    def advance_to", new="        with self._lock:\n            self._is_enabled = False\n            self.now = None\n\n    def advance_to")]),
     dict(expect="silent", desc="stop inlined in start", edits=[dict(file=V,
          old="            spinning += 1\n\n        self.stop()", new="            spinning += 1\n\n        with self._lock:\n            self._is_enabled = False")]),
+    dict(expect="fire", desc="seed C29/1: spin-guard bump assumes a numeric clock", names="E-clock-kind", edits=[dict(file="reactivex/scheduler/virtualtimescheduler.py",
+         old="                    if isinstance(self._clock, datetime):\n                        self._clock += timedelta(microseconds=1000)\n                    else:\n                        self._clock += 1.0",
+         new="                    self._clock += 1.0")]),
 ]
